@@ -388,18 +388,21 @@ def u_ti_clear_noncomposite(ctx):
     image shown before is deleted and the bookkeeping set is emptied - without an exception"""
     obs = []
     for had_images in (True, False):
-        for supported in (True, False):
+        for supported in (True, False, "forced"):
+            # "forced": kitty support is forced on a terminal that reports neither protocol (the documented escape hatch): images are
+            # drawn, so they have to be tracked and deleted exactly as on a terminal that supports them
+            forced = supported == "forced"
             eng = ctx.engine(f"C18/_ti_clear_images[non-composite,had-images={had_images},supported={supported}]", "C18")
             eng.default_replay = "C18.screen"
             st = State()
             self_, log = screen_world(ctx, eng, st)
             eng.classes.update({"CompositeCanvas": (), "SolidCanvas": ()})
             eng.genv["urwid"] = Namespace("urwid", {"CompositeCanvas": ClassV("CompositeCanvas")})
-            kitty_cls = st.new("KittyCls", {"forced_support": False})
-            eng.methods[("KittyCls", "is_supported")] = lambda e, s, recv, a, k: [(supported, s)]
+            kitty_cls = st.new("KittyCls", {"forced_support": forced})
+            eng.methods[("KittyCls", "is_supported")] = lambda e, s, recv, a, k, supported=supported: [(supported is True, s)]
             eng.genv["KittyImage"] = kitty_cls
-            eng.genv["ITerm2Image"] = kitty_cls
-            eng.genv["get_terminal_name_version"] = Fn(lambda e, s, a, k: [(("konsole", "22"), s)])
+            eng.genv["ITerm2Image"] = st.new("KittyCls", {"forced_support": False}) if forced else kitty_cls
+            eng.genv["get_terminal_name_version"] = Fn(lambda e, s, a, k, forced=forced: [(("wezterm" if forced else "konsole", "22"), s)])
             # `_ti_image_cviews` is a frozenset (see __init__ and the last line of this function): immutable
             cviews = st.new("frozenset", {"len": 1 if had_images else 0})
             eng.closed_classes.add("frozenset")
@@ -416,7 +419,7 @@ def u_ti_clear_noncomposite(ctx):
                 names = [x[0] for x in s.ghost["out"]]
                 cur = s.H(self_)["_ti_image_cviews"]
                 empty_now = isinstance(cur, Ref) and s.H(cur).get("len") == 0
-                if supported and had_images:
+                if supported and had_images:      # (True or "forced")
                     eng.oblige("previously-shown-images-deleted-and-forgotten", s, And("clear_images" in names, empty_now), kind="post")
                 elif supported:
                     eng.oblige("nothing-to-delete", s, "clear_images" not in names, kind="post")
